@@ -719,15 +719,23 @@ fn is_dead_code_warning(d: &str) -> bool {
     parts.next() == Some("warning") && parts.nth(1).is_some_and(|m| m.starts_with("This ") && (m.contains(" is never ") || m.contains(" are never ")))
 }
 fn mask_use_kinds(f: &FileObs, text: &str) -> FileObs {
-    let lines: Vec<&str> = text.split('\n').collect();
+    // lines covered by a `use` statement (it may span several lines up to its `;`)
+    let mut in_use = vec![];
+    let mut open = false;
+    for l in text.split('\n') {
+        let t = l.trim_start();
+        if !open && (t.starts_with("use ") || t.starts_with("pub use ")) {
+            open = true;
+        }
+        in_use.push(open);
+        if open && l.contains(';') {
+            open = false;
+        }
+    }
     let mut g = f.clone();
     for t in g.tokens.iter_mut() {
         let line: usize = t.split(':').next().and_then(|l| l.parse().ok()).unwrap_or(usize::MAX);
-        let is_use = lines.get(line).is_some_and(|l| {
-            let l = l.trim_start();
-            l.starts_with("use ") || l.starts_with("pub use ")
-        });
-        if is_use {
+        if in_use.get(line).copied().unwrap_or(false) {
             let mut parts = t.splitn(3, '|');
             let (r, _k, n) = (parts.next().unwrap_or(""), parts.next(), parts.next().unwrap_or(""));
             *t = format!("{r}|*|{n}");
